@@ -5,10 +5,10 @@ import (
 	"go/constant"
 	"go/token"
 	"go/types"
-	"path"
-	"path/filepath"
 	"os"
 	"os/exec"
+	"path"
+	"path/filepath"
 	"sort"
 	"strconv"
 	"strings"
